@@ -118,12 +118,69 @@ ROOT_EXEMPT = {
 }
 
 
+def field_feeds_worklist(F, gc, field):
+    """Does what gc reads from `self.<field>` reach the gray worklist? Either by data flow into an argument of the
+    worklist push, or by control: the push is dominated by a branch decided by a value derived from the field."""
+    tainted = set()
+    blocks = gc.blocks
+    changed = True
+    def place_tainted(p):
+        if p["l"] in tainted:
+            return True
+        if p["l"] == 1:
+            names = [e["name"] for e in p["p"] if e["k"] == "field"]
+            return bool(names) and names[0] == field
+        return False
+    while changed:
+        changed = False
+        for b in blocks:
+            for st in b["stmts"]:
+                if st["k"] != "assign":
+                    continue
+                if any(place_tainted(p) for p in rvalue_places(st["rv"])):
+                    if st["place"]["l"] not in tainted:
+                        tainted.add(st["place"]["l"])
+                        changed = True
+            t = b["term"]
+            if t["k"] == "call":
+                srcs = [op_place(a) for a in t["args"]]
+                if any(p is not None and place_tainted(p) for p in srcs):
+                    if t["dest"]["l"] not in tainted:
+                        tainted.add(t["dest"]["l"])
+                        changed = True
+                    # &mut iterators handed to next(): the iterator local itself stays tainted
+    cfg = gc.cfg
+    pushes = []
+    for bi, t in mu.calls(gc):
+        if any(n.startswith("std::vec::Vec::") and n.endswith("::push") for n in callee_names(t["func"])) and "CaoLangObject" in "".join(t.get("arg_tys", [])):
+            pushes.append((bi, t))
+    for bi, t in pushes:
+        for a in t["args"][1:]:
+            p = op_place(a)
+            if p is not None and place_tainted(p):
+                return True
+    # control: a switch on a tainted value whose (non-join) successor dominates a push
+    for sb, b in enumerate(blocks):
+        t = b["term"]
+        if t["k"] != "switch":
+            continue
+        p = op_place(t["discr"])
+        if p is None or not place_tainted(p):
+            continue
+        succs = [tb for _v, tb in t["targets"]] + [t["otherwise"]]
+        for s_ in set(succs):
+            for bi, _t in pushes:
+                if cfg.dominates(s_, bi) and not all(cfg.dominates(x, bi) or x == s_ for x in set(succs)):
+                    return True
+    return False
+
+
 def rule_roots(F):
     res = []
     rd = F.adt("vm::runtime::RuntimeData")
     gc = F.fn("vm::runtime::RuntimeData::gc")
     read = self_fields_read(F, gc)
-    read_first = set(r[0] for r in read)
+    read_first = set(r[0] for r in read if field_feeds_worklist(F, gc, r[0]))
     all_fields_anywhere = set()
     for g in [gc] + F.closures_of.get(gc.short, []):
         for b in g.blocks:
@@ -154,7 +211,7 @@ def rule_roots(F):
     for f in cf["variants"][0]["fields"]:
         if bearing(F, f["ty"], {"vm::runtime::RuntimeData", "vm::runtime::CallFrame"}):
             key = "C02/Roots/CallFrame.%s" % f["name"]
-            seen = any(nm == f["name"] and "CallFrame" in owner for owner, nm in all_fields_anywhere)
+            seen = any(nm == f["name"] and "CallFrame" in owner for owner, nm in all_fields_anywhere) and "call_stack" in read_first
             if seen:
                 res.append(ok("C02.Roots", key, gc.loc(), "read by gc"))
             else:
